@@ -7328,6 +7328,13 @@ class SSHServerConnection(SSHConnection):
 
             await upstream_process.wait_closed()
 
+            if upstream_process.exit_signal:
+                process.exit_with_signal(*upstream_process.exit_signal)
+            elif upstream_process.exit_status is not None:
+                process.exit(upstream_process.exit_status)
+            else:
+                process.close()
+
         self.logger.info('  Forwarding session via SSH tunnel')
 
         return SSHServerProcess(process_factory, None, MIN_SFTP_VERSION, False)
